@@ -1,10 +1,843 @@
-//! C16 — stub: property not yet claimed.
+//! C16 — grpc-web server layer (`tonic_web::GrpcWebLayer` / `GrpcWebService`), driven through its
+//! public API with scripted request bodies and a scripted inner service.
+//!
+//! Case kinds (tokens; byte strings are `x`+hex, `none` = header absent):
+//!   resp <accept|none> <ev>*          inner response body = events; observe the grpc-web response
+//!   req  <content-type> <ev>*         request body = events; observe what the inner service gets
+//!   kind <method> <ver> <ct|none> <accept|none>   the four `call` cases, fixed small bodies
+//! events: `d <hex>` data frame, `t <n> (<name> <value>){n}` trailers frame, `e` error, `p` Pending.
+//! observed frames: `d <hex>` | `t <n> …` (HeaderMap iteration order) | final `eos` / `err`.
+#![allow(dead_code)]
 use crate::common::*;
+use bytes::Bytes;
+use http::{HeaderMap, HeaderName, HeaderValue, Method, Request, Response, Version};
+use http_body::{Body, Frame};
+use std::collections::VecDeque;
+use std::future::Future;
+use std::pin::Pin;
+use std::sync::{Arc, Mutex};
+use std::task::{Context, Poll, Waker};
+use tower_layer::Layer;
+use tower_service::Service;
 
-pub fn generate(_tier: &str, _rng: &mut Rng) -> Vec<String> {
-    Vec::new()
+// ---------------------------------------------------------------------------------------------
+// scripted bodies (shared with c17)
+
+#[derive(Clone, Debug)]
+pub enum Ev {
+    Data(Vec<u8>),
+    Trailers(Vec<(Vec<u8>, Vec<u8>)>),
+    Err,
+    Pending,
 }
 
-pub fn execute(_case: &str) -> String {
-    "unclaimed".into()
+pub struct ScriptBody {
+    pub evs: VecDeque<Ev>,
+    /// number of `poll_frame` calls made after `Ready(None)` was returned
+    pub after_end: Arc<Mutex<usize>>,
+    ended: bool,
+}
+
+impl ScriptBody {
+    pub fn new(evs: Vec<Ev>) -> Self {
+        ScriptBody { evs: evs.into(), after_end: Arc::new(Mutex::new(0)), ended: false }
+    }
+}
+
+pub fn header_map(pairs: &[(Vec<u8>, Vec<u8>)]) -> Option<HeaderMap> {
+    let mut m = HeaderMap::new();
+    for (k, v) in pairs {
+        m.append(HeaderName::from_bytes(k).ok()?, HeaderValue::from_bytes(v).ok()?);
+    }
+    Some(m)
+}
+
+impl Body for ScriptBody {
+    type Data = Bytes;
+    type Error = tonic::Status;
+    fn poll_frame(mut self: Pin<&mut Self>, cx: &mut Context<'_>) -> Poll<Option<Result<Frame<Bytes>, tonic::Status>>> {
+        if self.ended {
+            let n = {
+                let mut g = self.after_end.lock().unwrap();
+                *g += 1;
+                *g
+            };
+            if n > 1000 {
+                panic!("busy-loop");
+            }
+            return Poll::Ready(None);
+        }
+        match self.evs.pop_front() {
+            None => {
+                self.ended = true;
+                Poll::Ready(None)
+            }
+            Some(Ev::Data(b)) => Poll::Ready(Some(Ok(Frame::data(Bytes::from(b))))),
+            Some(Ev::Trailers(t)) => Poll::Ready(Some(Ok(Frame::trailers(header_map(&t).expect("valid trailers"))))),
+            Some(Ev::Err) => Poll::Ready(Some(Err(tonic::Status::unavailable("scripted")))),
+            Some(Ev::Pending) => {
+                cx.waker().wake_by_ref();
+                Poll::Pending
+            }
+        }
+    }
+}
+
+/// Minimal executor: our bodies wake immediately, so a plain poll loop suffices; a future that
+/// stays Pending for 100 000 polls is reported as a hang.
+pub fn block_on<F: Future>(f: F) -> Option<F::Output> {
+    let mut f = Box::pin(f);
+    let mut cx = Context::from_waker(Waker::noop());
+    for _ in 0..100_000 {
+        if let Poll::Ready(v) = f.as_mut().poll(&mut cx) {
+            return Some(v);
+        }
+    }
+    None
+}
+
+/// Drain a body the way a consumer does: poll until `None` or the first error.
+pub async fn drain<B>(body: B) -> Vec<String>
+where
+    B: Body<Data = Bytes>,
+{
+    let mut body = Box::pin(body);
+    let mut out = Vec::new();
+    loop {
+        let fr = std::future::poll_fn(|cx| body.as_mut().poll_frame(cx)).await;
+        match fr {
+            None => {
+                out.push("eos".to_string());
+                break;
+            }
+            Some(Err(_)) => {
+                out.push("err".to_string());
+                break;
+            }
+            Some(Ok(frame)) => match frame.into_data() {
+                Ok(d) => {
+                    out.push("d".into());
+                    out.push(hex(&d));
+                }
+                Err(frame) => match frame.into_trailers() {
+                    Ok(t) => render_trailers(&t, &mut out),
+                    Err(_) => out.push("other".into()),
+                },
+            },
+        }
+        if out.len() > 200_000 {
+            out.push("runaway".into());
+            break;
+        }
+    }
+    out
+}
+
+/// `t <n> name value …` in `HeaderMap::iter` order.
+pub fn render_trailers(t: &HeaderMap, out: &mut Vec<String>) {
+    out.push("t".into());
+    out.push(t.len().to_string());
+    for (k, v) in t.iter() {
+        out.push(hex(k.as_str().as_bytes()));
+        out.push(hex(v.as_bytes()));
+    }
+}
+
+pub fn parse_evs(toks: &[&str]) -> Option<Vec<Ev>> {
+    let mut evs = Vec::new();
+    let mut i = 0;
+    while i < toks.len() {
+        match toks[i] {
+            "d" => {
+                evs.push(Ev::Data(unhex(toks.get(i + 1)?)?));
+                i += 2;
+            }
+            "t" => {
+                let n: usize = toks.get(i + 1)?.parse().ok()?;
+                let mut ps = Vec::new();
+                for j in 0..n {
+                    ps.push((unhex(toks.get(i + 2 + 2 * j)?)?, unhex(toks.get(i + 3 + 2 * j)?)?));
+                }
+                header_map(&ps)?;
+                evs.push(Ev::Trailers(ps));
+                i += 2 + 2 * n;
+            }
+            "e" => {
+                evs.push(Ev::Err);
+                i += 1;
+            }
+            "p" => {
+                evs.push(Ev::Pending);
+                i += 1;
+            }
+            _ => return None,
+        }
+    }
+    Some(evs)
+}
+
+pub fn render_evs(evs: &[Ev]) -> String {
+    let mut out: Vec<String> = Vec::new();
+    for e in evs {
+        match e {
+            Ev::Data(b) => {
+                out.push("d".into());
+                out.push(hex(b));
+            }
+            Ev::Trailers(t) => {
+                out.push("t".into());
+                out.push(t.len().to_string());
+                for (k, v) in t {
+                    out.push(hex(k));
+                    out.push(hex(v));
+                }
+            }
+            Ev::Err => out.push("e".into()),
+            Ev::Pending => out.push("p".into()),
+        }
+    }
+    out.join(" ")
+}
+
+// ---------------------------------------------------------------------------------------------
+// scripted inner service
+
+#[derive(Default, Clone)]
+struct Seen {
+    called: bool,
+    headers: Option<HeaderMap>,
+    version: Option<Version>,
+    method: Option<Method>,
+    frames: Vec<String>,
+}
+
+#[derive(Clone)]
+struct Inner {
+    seen: Arc<Mutex<Seen>>,
+    resp_evs: Vec<Ev>,
+    resp_ct: Option<&'static str>,
+}
+
+impl Service<Request<tonic::body::Body>> for Inner {
+    type Response = Response<ScriptBody>;
+    type Error = std::convert::Infallible;
+    type Future = Pin<Box<dyn Future<Output = Result<Self::Response, Self::Error>> + Send>>;
+    fn poll_ready(&mut self, _: &mut Context<'_>) -> Poll<Result<(), Self::Error>> {
+        Poll::Ready(Ok(()))
+    }
+    fn call(&mut self, req: Request<tonic::body::Body>) -> Self::Future {
+        let seen = self.seen.clone();
+        let resp_evs = self.resp_evs.clone();
+        let resp_ct = self.resp_ct;
+        Box::pin(async move {
+            let (parts, body) = req.into_parts();
+            let frames = drain(body).await;
+            {
+                let mut s = seen.lock().unwrap();
+                s.called = true;
+                s.headers = Some(parts.headers);
+                s.version = Some(parts.version);
+                s.method = Some(parts.method);
+                s.frames = frames;
+            }
+            let mut res = Response::new(ScriptBody::new(resp_evs));
+            if let Some(ct) = resp_ct {
+                res.headers_mut().insert(http::header::CONTENT_TYPE, HeaderValue::from_static(ct));
+            }
+            Ok(res)
+        })
+    }
+}
+
+fn opt_hv(tok: &str) -> Option<Option<HeaderValue>> {
+    if tok == "none" {
+        Some(None)
+    } else {
+        Some(Some(HeaderValue::from_bytes(&unhex(tok)?).ok()?))
+    }
+}
+
+fn hv_tok(v: Option<&HeaderValue>) -> String {
+    match v {
+        None => "none".into(),
+        Some(v) => hex(v.as_bytes()),
+    }
+}
+
+struct CallOut {
+    status: u16,
+    resp_ct: String,
+    resp_frames: Vec<String>,
+    seen: Seen,
+}
+
+fn run_call(method: Method, version: Version, ct: Option<HeaderValue>, accept: Option<HeaderValue>, extra: &[(&'static str, &'static str)], req_evs: Vec<Ev>, resp_evs: Vec<Ev>, resp_ct: Option<&'static str>) -> Option<CallOut> {
+    let seen = Arc::new(Mutex::new(Seen::default()));
+    let inner = Inner { seen: seen.clone(), resp_evs, resp_ct };
+    let mut svc = tonic_web::GrpcWebLayer::new().layer(inner);
+    let mut req = Request::new(ScriptBody::new(req_evs));
+    *req.method_mut() = method;
+    *req.version_mut() = version;
+    for (k, v) in extra {
+        req.headers_mut().append(HeaderName::from_static(k), HeaderValue::from_static(v));
+    }
+    if let Some(ct) = ct {
+        req.headers_mut().insert(http::header::CONTENT_TYPE, ct);
+    }
+    if let Some(a) = accept {
+        req.headers_mut().insert(http::header::ACCEPT, a);
+    }
+    let fut = svc.call(req);
+    let res = block_on(fut)?.unwrap();
+    let (parts, body) = res.into_parts();
+    let frames = block_on(drain(body))?;
+    let s = seen.lock().unwrap().clone();
+    Some(CallOut { status: parts.status.as_u16(), resp_ct: hv_tok(parts.headers.get(http::header::CONTENT_TYPE)), resp_frames: frames, seen: s })
+}
+
+const KIND_REQ: &[u8] = b"AAAA";
+fn kind_resp() -> Vec<Ev> {
+    vec![Ev::Data(vec![0, 0, 0, 0, 1, 7]), Ev::Trailers(vec![(b"grpc-status".to_vec(), b"0".to_vec())])]
+}
+
+pub fn execute(case: &str) -> String {
+    let t: Vec<&str> = case.split(' ').filter(|s| !s.is_empty()).collect();
+    match t.as_slice() {
+        ["resp", acc, evs @ ..] => {
+            let (Some(acc), Some(evs)) = (opt_hv(acc), parse_evs(evs)) else { return "bad-case".into() };
+            let Some(o) = run_call(Method::POST, Version::HTTP_11, Some(HeaderValue::from_static("application/grpc-web")), acc, &[], vec![], evs, Some("application/grpc")) else {
+                return "hang".into();
+            };
+            format!("{} {} {}", o.status, o.resp_ct, o.resp_frames.join(" "))
+        }
+        ["req", ct, evs @ ..] => {
+            let (Some(ct), Some(evs)) = (opt_hv(ct), parse_evs(evs)) else { return "bad-case".into() };
+            let extra = [("content-length", "123"), ("te", "gzip"), ("accept-encoding", "br"), ("x-user", "a"), ("x-user", "b")];
+            let Some(o) = run_call(Method::POST, Version::HTTP_11, ct, None, &extra, evs, vec![], None) else {
+                return "hang".into();
+            };
+            if !o.seen.called {
+                return format!("{} skipped", o.status);
+            }
+            let h = o.seen.headers.unwrap();
+            let xu: Vec<String> = h.get_all("x-user").iter().map(|v| hex(v.as_bytes())).collect();
+            format!(
+                "{} ct {} te {} ae {} cl {} xu {} {} | {}",
+                o.status,
+                hv_tok(h.get("content-type")),
+                hv_tok(h.get("te")),
+                hv_tok(h.get("accept-encoding")),
+                h.get_all("content-length").iter().count(),
+                xu.len(),
+                xu.join(" "),
+                o.seen.frames.join(" ")
+            )
+        }
+        ["kind", m, ver, ct, acc] => {
+            let Some(mb) = unhex(m) else { return "bad-case".into() };
+            let Ok(method) = Method::from_bytes(&mb) else { return "bad-case".into() };
+            let version = match *ver {
+                "h09" => Version::HTTP_09,
+                "h10" => Version::HTTP_10,
+                "h11" => Version::HTTP_11,
+                "h2" => Version::HTTP_2,
+                "h3" => Version::HTTP_3,
+                _ => return "bad-case".into(),
+            };
+            let (Some(ct), Some(acc)) = (opt_hv(ct), opt_hv(acc)) else { return "bad-case".into() };
+            let Some(o) = run_call(method.clone(), version, ct, acc, &[], vec![Ev::Data(KIND_REQ.to_vec())], kind_resp(), Some("application/grpc")) else {
+                return "hang".into();
+            };
+            if !o.seen.called {
+                return format!("{} skipped {}", o.status, o.resp_frames.join(" "));
+            }
+            let h = o.seen.headers.unwrap();
+            let same = o.seen.method == Some(method) && o.seen.version == Some(version);
+            format!(
+                "{} called {} {} {} | {} {}",
+                o.status,
+                if same { "same" } else { "changed" },
+                hv_tok(h.get("content-type")),
+                o.seen.frames.join(" "),
+                o.resp_ct,
+                o.resp_frames.join(" ")
+            )
+        }
+        _ => "bad-case".into(),
+    }
+}
+
+// ---------------------------------------------------------------------------------------------
+// generators
+
+pub const B64: &[u8; 64] = b"ABCDEFGHIJKLMNOPQRSTUVWXYZabcdefghijklmnopqrstuvwxyz0123456789+/";
+
+/// harness-side base64 (padded), independent of tonic's engine
+pub fn b64(data: &[u8]) -> Vec<u8> {
+    let mut out = Vec::new();
+    for c in data.chunks(3) {
+        let n = (c[0] as u32) << 16 | (*c.get(1).unwrap_or(&0) as u32) << 8 | *c.get(2).unwrap_or(&0) as u32;
+        out.push(B64[(n >> 18) as usize & 63]);
+        out.push(B64[(n >> 12) as usize & 63]);
+        out.push(if c.len() > 1 { B64[(n >> 6) as usize & 63] } else { b'=' });
+        out.push(if c.len() > 2 { B64[n as usize & 63] } else { b'=' });
+    }
+    out
+}
+
+pub fn frame(flag: u8, payload: &[u8]) -> Vec<u8> {
+    let mut v = vec![flag];
+    v.extend_from_slice(&(payload.len() as u32).to_be_bytes());
+    v.extend_from_slice(payload);
+    v
+}
+
+pub const SIZES: [usize; 16] = [0, 1, 2, 3, 4, 5, 6, 7, 8, 9, 11, 12, 13, 57, 255, 256];
+
+pub fn gen_frames(rng: &mut Rng, max_frames: u64, big: bool) -> Vec<(u8, Vec<u8>)> {
+    let n = rng.below(max_frames + 1);
+    (0..n)
+        .map(|_| {
+            let sz = if big && rng.chance(1, 20) { rng.range(1000, 9000) as usize } else { *rng.pick(&SIZES[..if big { 16 } else { 13 }]) };
+            let payload = match rng.below(4) {
+                0 => vec![0u8; sz],
+                1 => vec![0x80u8; sz], // looks like trailer flags
+                2 => (0..sz).map(|i| i as u8).collect(),
+                _ => rng.bytes(sz),
+            };
+            (rng.below(2) as u8, payload)
+        })
+        .collect()
+}
+
+pub fn frames_bytes(fs: &[(u8, Vec<u8>)]) -> Vec<u8> {
+    fs.iter().flat_map(|(f, p)| frame(*f, p)).collect()
+}
+
+const NAMES: [&str; 9] = ["grpc-status", "grpc-message", "grpc-status-details-bin", "x", "x-a", "a", "content-type", "x-trace-bin", "zz"];
+const VALUES: [&[u8]; 16] = [
+    b"0", b"", b"a:b", b":", b"a: b :c", b" lead", b"trail ", b"  ", b"13", b"caf\xc3\xa9", b"\xff\x80", b"a\tb", b"x=1;y=2", b"grpc-status:7", b"this is a message", b"http://h:80/p?q=1:2",
+];
+
+pub fn gen_trailers(rng: &mut Rng) -> Vec<(Vec<u8>, Vec<u8>)> {
+    let n = match rng.below(6) {
+        0 => 0,
+        1 => 1,
+        2 => 2,
+        _ => rng.range(2, 6),
+    };
+    let mut out = Vec::new();
+    for _ in 0..n {
+        let k = if rng.chance(1, 8) {
+            let l = rng.range(1, 6) as usize;
+            (0..l).map(|_| *rng.pick(b"abcxyz019-_.")).collect::<Vec<u8>>()
+        } else {
+            rng.pick(&NAMES).as_bytes().to_vec()
+        };
+        let v = if rng.chance(1, 6) {
+            let l = rng.below(12) as usize;
+            (0..l).map(|_| *rng.pick(b"ab: ;=\t0\x80\xfe,")).collect::<Vec<u8>>()
+        } else {
+            rng.pick(&VALUES).to_vec()
+        };
+        out.push((k, v));
+    }
+    out
+}
+
+/// Cut `bytes` into chunks. Strategies: whole, every byte, at every cut of `marks` (frame starts
+/// and the four positions inside each prefix), random cuts, plus empty chunks.
+pub fn chunkings(bytes: &[u8], marks: &[usize], rng: &mut Rng, n_random: usize) -> Vec<Vec<Vec<u8>>> {
+    let mut res: Vec<Vec<Vec<u8>>> = Vec::new();
+    let cut_at = |cuts: &[usize]| -> Vec<Vec<u8>> {
+        let mut cs = Vec::new();
+        let mut prev = 0;
+        for &c in cuts {
+            if c > prev && c < bytes.len() {
+                cs.push(bytes[prev..c].to_vec());
+                prev = c;
+            }
+        }
+        cs.push(bytes[prev..].to_vec());
+        cs
+    };
+    res.push(cut_at(&[]));
+    if bytes.len() <= 64 {
+        res.push(cut_at(&(1..bytes.len()).collect::<Vec<_>>()));
+    }
+    if !marks.is_empty() {
+        res.push(cut_at(marks));
+        for &m in marks.iter().take(12) {
+            res.push(cut_at(&[m]));
+        }
+    }
+    for _ in 0..n_random {
+        let k = rng.range(1, 5) as usize;
+        let mut cuts: Vec<usize> = (0..k).map(|_| rng.below(bytes.len() as u64 + 1) as usize).collect();
+        cuts.sort();
+        cuts.dedup();
+        let mut cs = cut_at(&cuts);
+        if rng.chance(1, 3) {
+            let at = rng.below(cs.len() as u64 + 1) as usize;
+            cs.insert(at, Vec::new());
+        }
+        res.push(cs);
+    }
+    res
+}
+
+/// every composition of `bytes` (2^(n-1) chunkings)
+pub fn all_chunkings(bytes: &[u8]) -> Vec<Vec<Vec<u8>>> {
+    let n = bytes.len();
+    if n == 0 {
+        return vec![vec![vec![]]];
+    }
+    let mut res = Vec::new();
+    for mask in 0u32..(1u32 << (n - 1)) {
+        let mut cs = Vec::new();
+        let mut prev = 0;
+        for i in 1..n {
+            if mask >> (i - 1) & 1 == 1 {
+                cs.push(bytes[prev..i].to_vec());
+                prev = i;
+            }
+        }
+        cs.push(bytes[prev..].to_vec());
+        res.push(cs);
+    }
+    res
+}
+
+pub fn prefix_marks(fs: &[(u8, Vec<u8>)]) -> Vec<usize> {
+    let mut marks = Vec::new();
+    let mut off = 0;
+    for (_, p) in fs {
+        for d in 0..=5 {
+            marks.push(off + d);
+        }
+        off += 5 + p.len();
+    }
+    marks.sort();
+    marks.dedup();
+    marks
+}
+
+pub fn with_pendings(chunks: &[Vec<u8>], rng: &mut Rng, density: u64) -> Vec<Ev> {
+    let mut evs = Vec::new();
+    for c in chunks {
+        if density > 0 && rng.chance(1, density) {
+            evs.push(Ev::Pending);
+        }
+        evs.push(Ev::Data(c.clone()));
+    }
+    evs
+}
+
+const ACCEPTS: [&str; 9] = [
+    "none",
+    "application/grpc-web",
+    "application/grpc-web+proto",
+    "application/grpc-web-text",
+    "application/grpc-web-text+proto",
+    "application/grpc-web-text+json",
+    "Application/grpc-web-text",
+    "*/*",
+    "application/grpc-web-text, application/grpc-web",
+];
+const WEB_CTS: [&str; 4] = ["application/grpc-web", "application/grpc-web+proto", "application/grpc-web-text", "application/grpc-web-text+proto"];
+
+fn tok(s: &str) -> String {
+    if s == "none" {
+        "none".into()
+    } else {
+        hex(s.as_bytes())
+    }
+}
+
+fn resp_case(acc: &str, evs: &[Ev]) -> String {
+    let e = render_evs(evs);
+    if e.is_empty() {
+        format!("resp {}", tok(acc))
+    } else {
+        format!("resp {} {}", tok(acc), e)
+    }
+}
+
+fn req_case(ct: &str, evs: &[Ev]) -> String {
+    let e = render_evs(evs);
+    if e.is_empty() {
+        format!("req {}", tok(ct))
+    } else {
+        format!("req {} {}", tok(ct), e)
+    }
+}
+
+pub fn generate(tier: &str, rng: &mut Rng) -> Vec<String> {
+    let thorough = tier == "thorough";
+    let mut out: Vec<String> = Vec::new();
+    let st0 = vec![(b"grpc-status".to_vec(), b"0".to_vec())];
+
+    // ---- corpus -----------------------------------------------------------------------------
+    // the conforming probes of DESIGN §5 (text request split inside quanta, response frames split
+    // inside the prefix, repeated trailer name, value containing ':')
+    let probe_tr = vec![
+        (b"grpc-status".to_vec(), b"0".to_vec()),
+        (b"x".to_vec(), b"a:b".to_vec()),
+        (b"grpc-status".to_vec(), b"7".to_vec()),
+        (b"grpc-message".to_vec(), b" lead: and trail ".to_vec()),
+    ];
+    for acc in ["application/grpc-web-text", "application/grpc-web", "none"] {
+        out.push(resp_case(
+            acc,
+            &[Ev::Data(vec![0, 0]), Ev::Pending, Ev::Data(vec![0, 0, 3, 1, 2, 3, 1, 0, 0, 0, 1]), Ev::Data(vec![]), Ev::Data(vec![9]), Ev::Trailers(probe_tr.clone())],
+        ));
+        out.push(resp_case(acc, &[Ev::Trailers(vec![])]));
+        out.push(resp_case(acc, &[]));
+        out.push(resp_case(acc, &[Ev::Data(vec![0, 0, 0, 0, 1, 1]), Ev::Err]));
+        out.push(resp_case(acc, &[Ev::Err]));
+    }
+    for ct in WEB_CTS {
+        out.push(req_case(ct, &[Ev::Data(b"AAAAAA".to_vec()), Ev::Pending, Ev::Data(b"IBA".to_vec()), Ev::Data(b"g==".to_vec())]));
+        out.push(req_case(ct, &[Ev::Data(b"AAAAAAIBA".to_vec())])); // truncated text
+        out.push(req_case(ct, &[Ev::Data(b"AQ==AQ==".to_vec())])); // padding in the middle of one chunk
+        out.push(req_case(ct, &[Ev::Data(b"AQ==".to_vec()), Ev::Data(b"AQ==".to_vec())])); // … in two chunks
+        out.push(req_case(ct, &[Ev::Data(b"AR==".to_vec())])); // non-zero discarded bits
+        out.push(req_case(ct, &[Ev::Data(b"AQ".to_vec())])); // unpadded
+        out.push(req_case(ct, &[]));
+        out.push(req_case(ct, &[Ev::Data(b"AAAA".to_vec()), Ev::Trailers(st0.clone())]));
+        out.push(req_case(ct, &[Ev::Data(b"AAAA".to_vec()), Ev::Err]));
+    }
+
+    // ---- kind: full product -----------------------------------------------------------------
+    let methods = ["POST", "GET", "PUT", "DELETE", "HEAD", "OPTIONS", "PATCH", "post", "POSTX", "CONNECT", "TRACE", "Post"];
+    let vers = ["h09", "h10", "h11", "h2", "h3"];
+    let cts = [
+        "none",
+        "application/grpc-web",
+        "application/grpc-web+proto",
+        "application/grpc-web-text",
+        "application/grpc-web-text+proto",
+        "application/grpc",
+        "application/grpc+proto",
+        "application/json",
+        "application/grpc-web;charset=utf-8",
+        "Application/Grpc-Web",
+        "application/grpc-web ",
+        "application/grpc-web-text+proto2",
+        "application/grpc-webx",
+        "application/grpc-web+json",
+        "application/grpc-we",
+        "",
+    ];
+    for m in methods {
+        for v in vers {
+            for ct in cts {
+                for acc in ACCEPTS {
+                    if thorough || m == "POST" || m == "GET" || rng.chance(1, 4) {
+                        out.push(format!("kind {} {} {} {}", hex(m.as_bytes()), v, tok(ct), tok(acc)));
+                    }
+                }
+            }
+        }
+    }
+    // high-bit / odd content-type bytes
+    for ct in [&b"application/grpc-web\xff"[..], b"\xe2\x98\x83", b"application/grpc-web\t"] {
+        for v in vers {
+            out.push(format!("kind {} {} {} none", hex(b"POST"), v, hex(ct)));
+        }
+    }
+
+    // ---- resp: structured -------------------------------------------------------------------
+    let n_resp = if thorough { 6000 } else { 500 };
+    for _ in 0..n_resp {
+        let fs = gen_frames(rng, 4, true);
+        let bytes = frames_bytes(&fs);
+        let tr = gen_trailers(rng);
+        if header_map(&tr).is_none() {
+            continue;
+        }
+        let marks = prefix_marks(&fs);
+        let cks = chunkings(&bytes, &marks, rng, 3);
+        for ck in cks {
+            let acc = *rng.pick(&ACCEPTS);
+            let dens = *rng.pick(&[0u64, 0, 3, 1]);
+            let mut evs = with_pendings(&ck, rng, dens);
+            if bytes.is_empty() && rng.chance(1, 2) {
+                evs.clear();
+            }
+            if rng.chance(1, 10) {
+                evs.push(Ev::Pending);
+            }
+            evs.push(Ev::Trailers(tr.clone()));
+            out.push(resp_case(acc, &evs));
+        }
+    }
+    // small-scope exhaustive: every chunking of small bodies, both forms
+    let small: Vec<Vec<(u8, Vec<u8>)>> = vec![
+        vec![(0, vec![7])],
+        vec![(1, vec![])],
+        vec![(0, vec![1, 2])],
+        vec![(0, vec![]), (0, vec![5])],
+        vec![(0, vec![1, 2, 3, 4])],
+    ];
+    for fs in &small {
+        let bytes = frames_bytes(fs);
+        if !thorough && bytes.len() > 7 {
+            continue;
+        }
+        for ck in all_chunkings(&bytes) {
+            for acc in ["application/grpc-web-text", "application/grpc-web+proto"] {
+                let mut evs = with_pendings(&ck, rng, 0);
+                evs.push(Ev::Trailers(st0.clone()));
+                out.push(resp_case(acc, &evs));
+            }
+        }
+    }
+    // ---- resp: malformed (outside the property's domain; the model must still agree) ---------
+    let n_mal = if thorough { 3000 } else { 300 };
+    for _ in 0..n_mal {
+        let fs = gen_frames(rng, 3, false);
+        let nb = rng.below(20) as usize;
+        let bytes = if rng.chance(1, 3) { rng.bytes(nb) } else { frames_bytes(&fs) };
+        let ck = chunkings(&bytes, &[], rng, 1).pop().unwrap();
+        let mut evs = with_pendings(&ck, rng, 4);
+        let tr = gen_trailers(rng);
+        if header_map(&tr).is_none() {
+            continue;
+        }
+        match rng.below(5) {
+            0 => {
+                let at = rng.below(evs.len() as u64 + 1) as usize;
+                evs.insert(at, Ev::Err);
+                evs.push(Ev::Trailers(tr));
+            }
+            1 => {} // no trailers at all
+            2 => {
+                evs.push(Ev::Trailers(tr.clone()));
+                evs.push(Ev::Data(vec![0, 0, 0, 0, 0]));
+            }
+            3 => {
+                evs.push(Ev::Trailers(tr.clone()));
+                evs.push(Ev::Trailers(st0.clone()));
+            }
+            _ => {
+                evs.push(Ev::Trailers(tr));
+                evs.push(Ev::Err);
+            }
+        }
+        out.push(resp_case(*rng.pick(&ACCEPTS), &evs));
+    }
+
+    // ---- req: structured --------------------------------------------------------------------
+    let n_req = if thorough { 6000 } else { 500 };
+    for _ in 0..n_req {
+        let fs = gen_frames(rng, 3, true);
+        let payload = frames_bytes(&fs);
+        for ct in [WEB_CTS[2], WEB_CTS[3], WEB_CTS[0], WEB_CTS[1]] {
+            let text = ct.contains("text");
+            let body = if text { b64(&payload) } else { payload.clone() };
+            // marks: around every quantum boundary of the first quanta, and the tail
+            let mut marks: Vec<usize> = (1..body.len().min(14)).collect();
+            for d in 1..=5 {
+                if body.len() > d {
+                    marks.push(body.len() - d);
+                }
+            }
+            marks.sort();
+            marks.dedup();
+            let nrand = if text { 3 } else { 1 };
+            let mut cks = chunkings(&body, &marks, rng, nrand);
+            if !text {
+                cks.truncate(3);
+                cks.push(chunkings(&body, &[], rng, 1).pop().unwrap());
+            }
+            for ck in cks {
+                if !thorough && rng.chance(1, 2) {
+                    continue;
+                }
+                let dens = *rng.pick(&[0u64, 0, 3]);
+                let evs = with_pendings(&ck, rng, dens);
+                out.push(req_case(ct, &evs));
+            }
+        }
+    }
+    // small-scope exhaustive: every chunking of short text bodies (1, 2, 3, 4, 6 payload bytes)
+    for payload in [&[5u8][..], &[5, 6], &[5, 6, 7], &[0, 0, 0, 0], &[0, 0, 0, 0, 1, 9]] {
+        let body = b64(payload);
+        if !thorough && body.len() > 8 {
+            continue;
+        }
+        for ck in all_chunkings(&body) {
+            out.push(req_case(WEB_CTS[2], &with_pendings(&ck, rng, 0)));
+        }
+    }
+    // ---- req: malformed ---------------------------------------------------------------------
+    let n_mal = if thorough { 8000 } else { 800 };
+    for _ in 0..n_mal {
+        let fs = gen_frames(rng, 3, false);
+        let payload = frames_bytes(&fs);
+        let mut body = match rng.below(3) {
+            0 => fs.iter().flat_map(|(f, p)| b64(&frame(*f, p))).collect::<Vec<u8>>(), // per-frame padded pieces
+            _ => b64(&payload),
+        };
+        match rng.below(9) {
+            0 => {
+                let n = rng.below(body.len() as u64 + 1) as usize;
+                body.truncate(n);
+            }
+            1 => {
+                if !body.is_empty() {
+                    let i = rng.below(body.len() as u64) as usize;
+                    body[i] = *rng.pick(b"-_ \n\r=.*\x00\xff~");
+                }
+            }
+            2 => {
+                let i = rng.below(body.len() as u64 + 1) as usize;
+                body.insert(i, *rng.pick(b"=\n A"));
+            }
+            3 => {
+                while body.last() == Some(&b'=') {
+                    body.pop();
+                }
+            }
+            4 => {
+                // non-zero discarded bits in the last quantum
+                if let Some(p) = body.iter().position(|&b| b == b'=') {
+                    if p > 0 {
+                        let idx = B64.iter().position(|&c| c == body[p - 1]).unwrap_or(0);
+                        body[p - 1] = B64[(idx | 1) & 63];
+                    }
+                }
+            }
+            5 => {
+                let nb = rng.below(16) as usize;
+                body = rng.bytes(nb);
+            }
+            6 => body.extend_from_slice(b"===="),
+            _ => {}
+        }
+        let ck = if body.len() <= 12 && rng.chance(1, 2) {
+            let all = all_chunkings(&body);
+            all[rng.below(all.len() as u64) as usize].clone()
+        } else {
+            chunkings(&body, &[], rng, 1).pop().unwrap()
+        };
+        let mut evs = with_pendings(&ck, rng, 5);
+        match rng.below(8) {
+            0 => {
+                let at = rng.below(evs.len() as u64 + 1) as usize;
+                evs.insert(at, Ev::Err);
+            }
+            1 => {
+                let tr = gen_trailers(rng);
+                if header_map(&tr).is_some() {
+                    evs.push(Ev::Trailers(tr));
+                }
+            }
+            _ => {}
+        }
+        let ct = if rng.chance(4, 5) { *rng.pick(&WEB_CTS[2..]) } else { *rng.pick(&WEB_CTS[..2]) };
+        out.push(req_case(ct, &evs));
+    }
+    out
 }
